@@ -114,6 +114,13 @@ class C07(Prop):
         """payloads of 64 KiB and more, arriving in pieces whose boundaries fall at every interesting place:
         header apart, the last byte of the payload the last byte of a chunk, the next message glued on"""
         out = []
+        # one message arriving in several hundred pieces (a receive that has to wait for more than 256 chunks)
+        for size, step in ((300, 1), (700, 1), (1500, 5), (900, 3)):
+            pl = bytes((i * 11 + size) % 256 for i in range(size))
+            stream = ref_frame(MAGIC, b'tx', pl) + ref_frame(MAGIC, b'ping', b'after')
+            out.append({'kind': 'run', 'magic': list(MAGIC), 'maxp': 2000000, 'maxb': 128000000, 'big': True,
+                        'chunks': [list(stream[i:i + step]) for i in range(0, len(stream), step)],
+                        'meta': {'msgs': [[list(b'tx'), list(pl)], [list(b'ping'), list(b'after')]], 'corrupt': None}})
         for size in (65535, 65536, 70000, 131075):
             p1 = bytes((i * 7 + size) % 256 for i in range(size))
             p2 = b'tail'
@@ -286,7 +293,8 @@ class C07(Prop):
                     proto.data_received(stream[i:i + case['chunk']])
                     await sessions.settle(4)
                 await aio.sleep(35)
-                return {'errors': s.errors, 'recv_count': s.recv_count, 'got': got, 'closing': ft.closing or ft.lost,
+                return {'errors': s.errors, 'cost': s.cost, 'error_base_cost': s.error_base_cost, 'bw': s.bw_cost_per_byte, 'nbytes': len(stream),
+                        'recv_count': s.recv_count, 'got': got, 'closing': ft.closing or ft.lost,
                         'pm_done': proto._process_messages_task.done()}
             return loop.run_until_complete(main())
         finally:
@@ -309,6 +317,18 @@ class C07(Prop):
             return f"message session handled {obs['got']}, expected {want_got}"
         if obs['errors'] != want_err:
             return f"message session counted {obs['errors']} errors, expected {want_err}"
+        # each framing error is charged the base error cost plus the cost its class carries
+        from aiorpcx import framing as _fr
+        want_cost = 0.0
+        for m in case['msgs']:
+            if m['fault'] == 'sum':
+                want_cost += obs['error_base_cost'] + _fr.BadChecksumError.cost
+            elif m['fault'] in ('magic', 'size'):
+                want_cost += obs['error_base_cost'] + (_fr.BadMagicError.cost if m['fault'] == 'magic' else _fr.OversizedPayloadError.cost)
+                break
+        if 'cost' in obs and not (want_cost - 1e-6 <= obs['cost'] <= want_cost + obs['nbytes'] * obs['bw'] + 1e-6):
+            return (f"the framing errors of this stream cost {obs['cost']:.3f}; base error cost plus the error-specific costs come to "
+                    f"{want_cost:.3f} (plus at most {obs['nbytes'] * obs['bw']:.3f} for the bytes received)")
         if fatal and not obs['closing']:
             return 'the message session did not close the connection after bad magic / an over-limit length'
         if not fatal and obs['closing']:
@@ -321,7 +341,7 @@ class C07(Prop):
         out = []
         n = 60 if ctx['tier'] == 'quick' else 600
         for _ in range(n):
-            msgs = [{'cmd': list(rng.choice([b'ping', b'verack', b'tx', b'a' * 12])), 'payload': list(bytes(rng.randrange(256) for _ in range(rng.choice([0, 1, 5, 40])))),
+            msgs = [{'cmd': list(rng.choice([b'ping', b'verack', b'tx', b'a' * 12, b'v\xe5rsion', b'\xfftx', b'inv\x80', b'\xc3'])), 'payload': list(bytes(rng.randrange(256) for _ in range(rng.choice([0, 1, 5, 40])))),
                      'fault': rng.choice(['none', 'none', 'none', 'sum', 'sum', 'magic', 'size'])} for _ in range(rng.randrange(1, 6))]
             case = {'session': True, 'msgs': msgs, 'chunk': rng.choice([1, 7, 24, 1000]), 'transport': rng.choice(['rs', 'us'])}
             obs = self.session_scenario(case)
